@@ -12,6 +12,7 @@ THEOREMS = [
     'Nix.C20.resolveSection_sound', 'Nix.C20.resolveSection_complete', 'Nix.C20.metaFilter_iff',
     'Nix.C20.referringBlocks_eq_bruteforce', 'Nix.C20.referringDataArrays_eq_bruteforce', 'Nix.C20.referringTags_eq_bruteforce',
     'Nix.C20.referringMultiTags_eq_bruteforce', 'Nix.C20.referringSources_perm_bruteforce', 'Nix.C20.referringDataArraysIn_eq_bruteforce',
+    'Nix.C20.referringTagsIn_eq_bruteforce', 'Nix.C20.referringMultiTagsIn_eq_bruteforce', 'Nix.C20.referringSourcesIn_perm_bruteforce', 'Nix.C20.referringSourcesIn_nodup',
     'Nix.C20.srcReferring_mem', 'Nix.C20.srcReferring_sublist',
     'Nix.C20.parentSource_sound', 'Nix.C20.parentSource_spec', 'Nix.C20.parentSource_none', 'Nix.C20.parentSource_root',
     'Nix.C20.inherited_eq_own_plus_unshadowed', 'Nix.C20.inherited_without_link', 'Nix.C20.inherited_link_target',
@@ -334,7 +335,7 @@ def history(rng, tier):
 
 def cases(tier, seed, rng):
     from vlib.runner import Case
-    n = 150 if tier == 'quick' else 700
+    n = 150 if tier == 'quick' else 500
     return [Case(history(rng, tier), 'gen:forest') for _ in range(n)]
 
 
